@@ -2,6 +2,18 @@
 """Generate MANIFEST.json from the table below (single source of truth)."""
 import json, subprocess
 CHECKS = {
+ "C03": ("exploration", "differential decode monitor: VP8L stream synthesizer + libwebp-encoded files vs libwebp reference decoder",
+         "Decodes thousands of syntactically valid VP8L streams that this package's encoder never emits (all transform orders, packings, cache/meta sizes, code shapes, distance codes) and compares every pixel with libwebp's decode; coverage counters come from the synthesizer's own choices.",
+         "libwebp 1.2.4 is trusted as the definition of the format; a stream counts as valid iff libwebp accepts it.", "3/C03"),
+ "C04": ("exploration", "differential decode monitor: VP8 key-frame + ALPH synthesizers and libwebp-encoded files vs libwebp (planes, RGBA), x/image as envelope check",
+         "Bit-exact comparison of Y/Cb/Cr (loop filter included) and of alpha+upsampled colour against libwebp over synthesized key frames covering the header/mode/token syntax, and over libwebp-written files.",
+         "libwebp 1.2.4 trusted as RFC 6386/WebP reference; synthesized coefficients restricted to the envelope where libwebp and x/image agree.", "3/C04"),
+ "C15": ("exploration", "metadata round-trip monitor (blobs as oracle, metadata-free encode as reference, independent walker)",
+         "Every subset of ICC/EXIF/XMP x blob classes x output kinds; blobs read back three ways, flags<=>chunks via the walker, payload/pixel identity against the metadata-free encode.",
+         "Independent RIFF walker; empty blobs may be stored or omitted.", "3/C15"),
+ "C20": ("exploration", "option-space totality and documented-equivalence monitor",
+         "Drives each documented illegal value, each legal boundary, random sentinel subsets vs explicit defaults (byte equality), nil options, lossy-only options on lossless, presets and boundary dimensions; panics are caught per call.",
+         "Documentation table transcribed from encode.go comments (each row cites its sentence); validity via walker + Decode.", "3/C20"),
  # id: (level, technique, level text, level note, design ref)
  "C01": ("exploration", "round-trip monitor: source image as oracle, libwebp for attribution",
          "Runs Encode(lossless)->Decode on a stratified grid of image classes x Method x Quality x Exact x Go types x metadata and compares every pixel with the source; observes executions only, so it gives 'held on N round trips with these transform signatures', which is the right level for an all-inputs property of a codec.",
